@@ -14,8 +14,9 @@ theorem merge_ok_iff (a b : Sk) (hf : a.sameFamily b = true) :
     (mergeVerdict a b = .accept ↔ a.compatible b = true) ∧
     (mergeVerdict a b = .typeError ↔ a.compatible b = false) := by
   cases a <;> cases b <;>
-    simp_all [Sk.sameFamily, Sk.isCms, mergeVerdict, Sk.mergeAttrs, compareChain, Sk.attr, Sk.compatible] <;>
-    (repeat' split) <;> simp_all <;> omega
+    simp_all [Sk.sameFamily, Sk.isCms, mergeVerdict, Sk.mergeAttrs, Gen.mergeAttrsLinear, Gen.mergeAttrsLog16, Gen.mergeAttrsLog8, Gen.mergeAttrsHll,
+      Gen.mergeAttrsHH, compareChain, Sk.attr, Sk.compatible] <;>
+    (repeat' split) <;> (try simp_all) <;> (try omega)
 
 /-- sketches that agree on the parameters always merge -/
 theorem compatible_merges (a b : Sk) (h : a.compatible b = true) : mergeVerdict a b = .accept := by
